@@ -8,6 +8,7 @@ import (
 	"go/types"
 	"math/bits"
 	"regexp"
+	"strconv"
 	"strings"
 
 	"golang.org/x/tools/go/ssa"
@@ -18,7 +19,7 @@ func txnRules() []*Rule {
 		{ID: "RD-TABLE", Props: []string{"C07", "C08", "C09", "C15", "C19"}, Min: 20,
 			Doc: "decision table of Database.resolveDirty extracted by path enumeration: journal gate before the header read (hot journal ⇒ error unless RESERVED is held), header re-read and re-validated before dirty is cleared, header replaced by the fresh one, no nil return that leaves the handle unvalidated",
 			Run: runResolveDirty},
-		{ID: "TXN-3", Props: []string{"C08", "C19"}, Min: 4,
+		{ID: "TXN-3", Props: []string{"C08", "C19", "C02", "C04", "C07", "C01"}, Min: 4,
 			Doc: "page cache cleared unless the change counter is unchanged; schema cache reset unless the schema cookie is unchanged; comparisons use the old header",
 			Run: runTxn3},
 		{ID: "TXN-1", Props: []string{"C08", "C15", "C01", "C04", "C09", "C07"}, Min: 12,
@@ -765,7 +766,8 @@ func runJrnl3(c *Ctx) {
 	}
 	alloc, st, rd := binaryReadTarget(fn)
 	if alloc == nil {
-		c.Undecided("journal header struct", fn.Pos(), "no encoding/binary.Read into a local struct found")
+		// no struct: the fields are read straight out of the header bytes
+		runJrnl3Direct(c, fn)
 		return
 	}
 	if be, ok := rd.Common().Args[1].(*ssa.MakeInterface); !ok || !strings.Contains(be.X.Type().String(), "bigEndian") {
@@ -926,6 +928,224 @@ func runJrnl3(c *Ctx) {
 		if f.Offset == 0 {
 			c.Check(f.Size == 8, "journal header: magic field", fn.Pos(), "8-byte magic at offset 0")
 		}
+	}
+}
+
+// runJrnl3Direct: the same obligations as runJrnl3 for a validJournal that decodes the header without a struct: the
+// magic is `bytes.Equal(b[:8], journalMagic[:])` (or HasPrefix) and the sector size a big-endian Uint32 of `b[20:]`,
+// b being the buffer the first Read filled. A "field" is then a (what reads the buffer, at which offset) event.
+func runJrnl3Direct(c *Ctx, fn *ssa.Function) {
+	p := c.P
+	t := &Termer{P: p}
+	paths, okp := EnumLits(fn.Blocks[0], 0, TabOpts{Termer: t, EventOf: callEvents(p)})
+	if !okp {
+		c.Undecided("paths", fn.Pos(), "too many paths")
+		return
+	}
+	sliceOf := func(arg string) (base string, lo, hi int64, ok bool) {
+		// base[:], base[:const:H], base[const:L:], base[const:L:const:H]
+		i := strings.LastIndex(arg, "[")
+		if i < 0 || !strings.HasSuffix(arg, "]") {
+			return "", 0, 0, false
+		}
+		base = arg[:i]
+		in := arg[i+1 : len(arg)-1]
+		parts := strings.SplitN(strings.Replace(in, "const:", "", -1), ":", 2)
+		if len(parts) != 2 {
+			return "", 0, 0, false
+		}
+		lo, hi = 0, -1
+		if parts[0] != "" {
+			v, err := strconv.ParseInt(parts[0], 10, 64)
+			if err != nil {
+				return "", 0, 0, false
+			}
+			lo = v
+		}
+		if parts[1] != "" {
+			v, err := strconv.ParseInt(parts[1], 10, 64)
+			if err != nil {
+				return "", 0, 0, false
+			}
+			hi = v
+		}
+		return base, lo, hi, true
+	}
+	nAccept := 0
+	orderSeen, orderBad := false, false
+	magicLen := int64(-1)
+	var orderPos token.Pos
+	for _, lp := range paths {
+		if lp.Exit == nil {
+			continue
+		}
+		r0 := lp.PS.Resolve(lp.Exit.Results[0])
+		hot, isC := constBool(r0)
+		if !isC {
+			c.Undecided("verdict", lp.Exit.Pos(), "validJournal returns a non-constant verdict %s", r0)
+			continue
+		}
+		errNonNil := retErrDefinitelyNonNil(lp, t)
+		if !hot {
+			if errNonNil || !isNilConst(lp.PS.Resolve(lp.Exit.Results[1])) {
+				good := lp.Holds("call:os.Open#1", token.NEQ, "nil") && lp.Has("call:os.IsNotExist", token.EQL, "true", false)
+				c.Check(good, "notjournal-error:"+pathSig(lp, 99), lp.Exit.Pos(), "an error is returned only when the journal exists but cannot be opened; path [%s]", pathDesc(lp))
+			} else {
+				c.Pass("notjournal:"+pathSig(lp, 99), lp.Exit.Pos(), "not a hot journal, reading proceeds (false, nil); path [%s]", pathDesc(lp))
+			}
+			continue
+		}
+		nAccept++
+		key := "hot:" + pathSig(lp, 99)
+		var missing []string
+		// the header buffer: what the first Read on the journal filled
+		buf := ""
+		for _, e := range lp.Events {
+			if e.Kind == "call" && e.Name == "(*os.File).Read" && len(e.Args) == 2 {
+				if b, lo, _, ok := sliceOf(e.Args[1]); ok && lo == 0 {
+					buf = b
+				}
+				break
+			}
+		}
+		if buf == "" {
+			c.Undecided(key, lp.Exit.Pos(), "cannot find the buffer the journal header is read into")
+			continue
+		}
+		magicOK := false
+		sector := ""
+		for _, e := range lp.Events {
+			if e.Kind != "call" || e.Name == "(*os.File).Read" {
+				continue
+			}
+			reads := -1
+			for i, a := range e.Args {
+				if strings.HasPrefix(a, buf+"[") || a == buf {
+					reads = i
+				}
+			}
+			if reads < 0 {
+				continue
+			}
+			_, lo, hi, okS := sliceOf(e.Args[reads])
+			res := ""
+			if v, isV := e.Instr.(ssa.Value); isV {
+				res = t.Term(v, lp.PS)
+			}
+			switch {
+			case (e.Name == "bytes.Equal" || e.Name == "bytes.HasPrefix") && len(e.Args) == 2 && okS && lo == 0 && (hi == 8 || (hi == -1 && e.Name == "bytes.HasPrefix" && reads == 0)):
+				other := e.Args[1-reads]
+				if g, _, _, okG := sliceOf(other); okG && strings.HasPrefix(g, "g:") {
+					if b, ok := p.varInitBytes("db", strings.TrimPrefix(g, "g:")); ok && string(b) == string(sqliteJournalMagic) && lp.Holds(res, token.EQL, "true") {
+						magicOK = true
+						magicLen = int64(len(b))
+					}
+				}
+			case strings.HasSuffix(e.Name, ".Uint32") && strings.Contains(e.Name, "encoding/binary") && okS && lo == 20 && (hi == -1 || hi == 24):
+				orderSeen = true
+				orderPos = e.Instr.Pos()
+				if !strings.Contains(e.Name, "bigEndian") {
+					orderBad = true
+				}
+				sector = res
+			default:
+				// anything else that looks into the header must not bear on the verdict
+				used := false
+				for _, l := range lp.Lits {
+					if res != "" && strings.Contains(l.Subject, res) {
+						used = true
+					}
+				}
+				if used || res == "" {
+					missing = append(missing, fmt.Sprintf("independence from the other journal header fields (%s reads %s): SQLite treats a journal with a valid header and a complete first sector as hot whatever its page count, nonce or initial size say — a first transaction on an empty database has page count 0 and still must be rolled back", e.Name, e.Args[reads]))
+				}
+			}
+		}
+		for _, l := range lp.Lits {
+			if strings.Contains(l.Subject, buf+"[") {
+				missing = append(missing, fmt.Sprintf("independence from header bytes tested directly (%s)", l))
+			}
+		}
+		if len(lp.Unknown) > 0 {
+			missing = append(missing, fmt.Sprintf("independence from unrecognised conditions %v", lp.Unknown))
+		}
+		if !lp.Holds("call:os.Open#1", token.EQL, "nil") {
+			missing = append(missing, "journal opened")
+		}
+		if !magicOK {
+			missing = append(missing, "bytes 0..7 equal to SQLite's journal magic d9d505f920a163d7")
+		}
+		sectorSubj := ""
+		if sector == "" {
+			missing = append(missing, "a 4-byte field at offset 20 (sector size)")
+		} else {
+			var ls []Lit
+			signed := false
+			for _, l := range lp.Lits {
+				if unconvTerm(l.Subject) == sector && l.IsInt {
+					ls = append(ls, l)
+					sectorSubj = l.Subject
+					if strings.HasPrefix(l.Subject, "conv:int") {
+						signed = true
+					}
+				}
+			}
+			for _, v := range []int64{-1, 0, 1, 511, 512, 513, 4096, 65535, 65536, 65537, 1 << 20} {
+				if v < 0 && !signed {
+					continue
+				}
+				acc := true
+				for _, l := range ls {
+					if evalCmp(v, l.Op, l.N) != l.Val {
+						acc = false
+					}
+				}
+				if acc != (v >= 512 && v <= 65536) {
+					missing = append(missing, fmt.Sprintf("sector size accepted set is [512,65536] (value %d is %s)", v, map[bool]string{true: "accepted", false: "rejected"}[acc]))
+					break
+				}
+			}
+		}
+		reads := 0
+		for _, l := range lp.Lits {
+			if strings.HasPrefix(l.Subject, "call:(*os.File).Read") && strings.Contains(l.Subject, "#0") {
+				eq := (l.Op == token.NEQ && !l.Val) || (l.Op == token.EQL && l.Val)
+				if !eq {
+					continue
+				}
+				errTerm := strings.Replace(strings.Split(l.Subject, "−")[0], "#0", "#1", 1)
+				if !lp.Holds(errTerm, token.EQL, "nil") {
+					continue
+				}
+				if strings.Contains(l.Subject, "−") {
+					if sector != "" && (strings.Contains(l.Subject, "len(make[("+sector+"-const:") || (sectorSubj != "" && strings.Contains(l.Subject, "len(make[("+sectorSubj+"-const:"))) {
+						reads++
+					}
+				} else if l.IsInt && l.N >= 24 {
+					reads++
+				}
+			}
+		}
+		if reads < 2 {
+			missing = append(missing, "header read in full and the rest of the first sector read in full")
+		}
+		if len(missing) == 0 {
+			c.Pass(key, lp.Exit.Pos(), "hot verdict requires: opened, magic, sane sector size, full header, full first sector")
+		} else {
+			c.Fail(key, lp.Exit.Pos(), "a journal is declared hot without establishing: %s (a PERSIST/TRUNCATE leftover or torn header would block reading, or a zeroed journal be taken for hot); path [%s]", strings.Join(missing, "; "), pathDesc(lp))
+		}
+	}
+	if nAccept == 0 {
+		c.Fail("hot", fn.Pos(), "validJournal never reports a hot journal: an interrupted transaction is read through")
+	}
+	switch {
+	case orderBad:
+		c.Fail("journal header byte order", orderPos, "the journal header is not decoded big-endian")
+	case orderSeen:
+		c.Trivial("journal header byte order", orderPos, "decoded big-endian")
+	}
+	if magicLen >= 0 {
+		c.Check(magicLen == 8, "journal header: magic field", fn.Pos(), "8-byte magic at offset 0")
 	}
 }
 
